@@ -117,6 +117,19 @@ pub fn open_flow(
                 }
             }
 
+            // when the flow is opened with the same asset used to pay for the flow_fee, the funds
+            // sent have to cover both the flow_fee and the flow_asset (already net of the fee)
+            if let AssetInfo::NativeToken {
+                denom: flow_asset_denom,
+            } = &flow_asset.info
+            {
+                if *flow_asset_denom == flow_fee_denom
+                    && paid_amount != flow_asset.amount.checked_add(flow_fee.amount)?
+                {
+                    return Err(ContractError::FlowAssetNotSent);
+                }
+            }
+
             // send fee to fee collector
             messages.push(
                 BankMsg::Send {
